@@ -453,10 +453,22 @@ class Inliner:
         prepare = r[2] if len(r) > 2 else None
         if callee.name in stack:
             return None
-        if _contains(callee, (ast.Yield, ast.YieldFrom, ast.Await)) or callee.args.vararg or callee.args.kwarg:
+        if _contains(callee, (ast.Yield, ast.YieldFrom, ast.Await)) or callee.args.vararg:
             return None
         if any(isinstance(n, (ast.Global, ast.Nonlocal)) for n in ast.walk(callee)):
             return None
+        kw_map = None
+        if callee.args.kwarg:
+            # f(a, **kw) calling g(a, **kw): the callee's **name is the caller's expression
+            stars = [k for k in call.keywords if k.arg is None]
+            if len(stars) != 1 or not isinstance(stars[0].value, ast.Name):
+                return None
+            kw_map = (callee.args.kwarg.arg, stars[0].value.id)
+            call = copy.copy(call)
+            call.keywords = [k for k in call.keywords if k.arg is not None]
+            callee = copy.copy(callee)
+            callee.args = copy.copy(callee.args)
+            callee.args.kwarg = None
         b = norm.bind_call(callee, call, skip)
         if b is None:
             return None
@@ -477,6 +489,8 @@ class Inliner:
                 nm = p + tag
                 ren[p] = nm
                 pre.append(ast.copy_location(ast.Assign(targets=[ast.Name(id=nm, ctx=ast.Store())], value=copy.deepcopy(a)), call))
+        if kw_map is not None:
+            ren[kw_map[0]] = kw_map[1]
         body = [norm._Rename(ren).visit(s) for s in body]
         body = [norm._Subst(dict(mapping)).visit(s) for s in body]
         if skip and isinstance(call.func, ast.Attribute) and not (isinstance(call.func.value, ast.Name) and call.func.value.id == "self"):
@@ -1033,6 +1047,13 @@ class Canon:
                     return nested[name], False, prep
                 if name in module.functions and (name in inline or (name.startswith("_") and name not in known)):
                     return module.functions[name], False, prep
+                if name in module.imports and (name in inline or (name.startswith("_") and not name.startswith("__") and name not in known)):
+                    try:
+                        r = module.resolve(f)
+                    except Exception:
+                        r = None
+                    if isinstance(r, ast.FunctionDef):
+                        return r, False, prep
             return None
         return lookup
 
